@@ -21,6 +21,7 @@ from pyoak.match.error import ASTPatternDefinitionError, ASTXpathDefinitionError
 from pyoak.node import NODE_REGISTRY, ASTNode
 
 from ..core import Rec
+from ..ref import pattern as RP
 
 PID = "C17"
 RULE = (
@@ -113,7 +114,7 @@ def pattern_behaviour(m, nodes):
     return tuple(out)
 
 
-def check_pattern(rec, text, nodes, core=False):
+def check_pattern(rec, text, nodes, core=False, expect=None):
     rec.count("transitions"); rec.count("traces"); rec.count("evaluations")
     case = {"grammar": "pattern", "text": text}
     res = {}
@@ -154,8 +155,25 @@ def check_pattern(rec, text, nodes, core=False):
         rec.violation("C17|pattern|entry-points-disagree", case, f"acceptance differs: {res}")
     if core and not res["validate"]:
         rec.violation("C17|pattern|grammar-text-rejected", case, "a text produced by the documented grammar was rejected")
+    if expect is not None and res["validate"] is not expect:
+        rec.violation(f"C17|pattern|{'ill-formed-accepted' if res['validate'] else 'well-formed-rejected'}", case,
+                      f"captures / variables: the text is {'well' if expect else 'ill'}-formed (unique captures, variables after their captures) but was {'accepted' if res['validate'] else 'rejected'}")
     rec.outcome(f"pattern:{'ok' if res['validate'] else 'rejected'}")
     return beh[0]
+
+
+def placement_patterns():
+    """Structurally valid patterns with captures and variables at every place of a template; they are well-formed
+    (to be accepted) iff capture names are unique and every variable follows its capture in text order."""
+    vals = [("re", "a"), ("var", "x"), ("var", "y")]
+    caps = [None, "x", "y"]
+    for v1, v2, v3 in itertools.product(vals, repeat=3):
+        for c1, c2, c3, c4, c5, c6 in itertools.product(caps, repeat=6):
+            yield ("tree", ("QP",), (
+                ("x", v1, c1),
+                ("one", ("tree", "*", (("x", v2, c2),)), c3),
+                ("items", ("seq", ((("tree", "*", ()), c4), (v3, None)), ("tail", c5)), c6),
+            ))
 
 
 def mutations(tokens, alphabet):
@@ -251,6 +269,19 @@ def run_shard(cfg):
             if idx % of == k:
                 rec.rank = 1000 + idx
                 do_p("".join(m), ntok=len(m))
+    # (b') captures and variables at every place of a template: accepted iff well-formed
+    for p in placement_patterns():
+        idx += 1
+        if idx % of == k:
+            rec.rank = 5000 + idx
+            text = RP.render(p)
+            if text not in seen_p:
+                seen_p.add(text)
+                rec.count("states")
+                exp = RP.well_formed(p)
+                r = check_pattern(rec, text, nodes, expect=exp)
+                rec.outcome(f"placement:{'well' if exp else 'ill'}-formed")
+                housekeeping()
     # (a) all token strings up to the bound
     for n in range(1, cfg["kx"] + 1):
         for combo in itertools.product(XTOK, repeat=n):
@@ -278,7 +309,12 @@ def replay(case, cfg):
             if a and b and a != b:
                 rec.violation("C17|xpath|whitespace-changes-meaning", case, "reproduced")
     else:
-        a = check_pattern(rec, case["text"], nodes)
+        exp = None
+        for p in placement_patterns():
+            if RP.render(p) == case["text"]:
+                exp = RP.well_formed(p)
+                break
+        a = check_pattern(rec, case["text"], nodes, expect=exp)
         if "spaced" in case:
             b = check_pattern(rec, case["spaced"], nodes)
             if a and b and a != b:
